@@ -149,3 +149,102 @@ def c10(work, tier, seed):
                                owns=lambda v: guard_property(v["guard"]) == "C10", jobs=12)
     out.coverage["catalogue_size"] = len(pairs)
     return out
+
+
+# ------------------------------------------------------------------ C07
+
+def interleavings(work, cfgname, limit, rng):
+    dot = work.path(cfgname + ".dot")
+    r = design_check("Interleave", cfgname + ".cfg", work, workers=4, timeout=300, extra=["-dump", "dot,actionlabels", dot])
+    nodes, roots, edges = parse_dot(dot)
+    adj = {}
+    for s, d, act, args in edges:
+        adj.setdefault(s, []).append((d, int(args)))
+    # number of maximal paths from each node (DAG), then uniform sampling without enumerating them all
+    import functools, sys
+    sys.setrecursionlimit(10000)
+
+    @functools.lru_cache(maxsize=None)
+    def count(n):
+        nx = adj.get(n, [])
+        return 1 if not nx else sum(count(d) for d, _ in nx)
+    total = count(roots[0])
+    picks = sorted(rng.sample(range(total), min(limit, total))) if total > limit else list(range(total))
+    out = []
+    for k in picks:
+        n, path = roots[0], []
+        while adj.get(n):
+            for d, t in sorted(adj[n], key=lambda x: x[1]):
+                c = count(d)
+                if k < c:
+                    path.append(t)
+                    n = d
+                    break
+                k -= c
+        out.append(path)
+    return r, out, total
+
+
+def tunnel_steps(k, token, variant):
+    caps = 2 if token else 0
+    port = ["PA", "PB", "PE"][k % 3]
+    other = ["PA", "PB", "PE"][(k + 1) % 3]
+    steps = [{"k": "hs", "cls": "valid", "caps": caps, "major": 1 + k, "minor": k},
+             {"k": "create", "cls": "valid", "cookie": "good" if token else "none"},
+             {"k": "auth", "cls": "valid"},
+             {"k": "chan", "cls": "valid", "name": ["H1"], "port": port},
+             {"k": "data", "cls": "valid", "n": 20 + k},
+             {"k": "hostsend", "n": 100 + 10 * k},
+             {"k": "data", "cls": "valid", "n": 300 + k}]
+    if variant == "cross-host":
+        steps[3] = {"k": "chan", "cls": "valid", "name": ["H1"], "port": other}   # another tunnel's host: this tunnel's token does not cover it
+    elif variant == "bad-cookie" and token:
+        steps[1] = {"k": "create", "cls": "valid", "cookie": "bad"}
+    elif variant == "out-of-order":
+        steps[2], steps[3] = steps[3], steps[2]
+    return steps
+
+
+def c07(work, tier, seed):
+    design = design_check("Gateway", "MC_Gateway.cfg", work, workers=8, timeout=600)
+    proto = design_check("MC_Proto", "MC_Proto.cfg", work, workers=8, timeout=600)
+    rng = random.Random(seed)
+    r2, il2, tot2 = interleavings(work, "MC_Interleave2", 120 if tier == "quick" else 1500, rng)
+    r3, il3, tot3 = interleavings(work, "MC_Interleave3", 40 if tier == "quick" else 600, rng)
+    scripts = []
+    hosts = [["H1", ":", "PA"], ["H1", ":", "PB"], ["H1", ":", "PE"]]
+
+    def mk(schedule, ntun, idx, big=False):
+        token = idx % 3 != 2
+        cfg = {"tokenAuth": token, "smartCard": False, "auth": "openid" if token else "ntlm", "sel": "unsigned" if token else "roundrobin", "hosts": hosts, "verifyIp": True, "idle": 0}
+        tunnels = []
+        for k in range(ntun):
+            variant = ["ok", "ok", "cross-host", "ok", "bad-cookie", "out-of-order"][(idx + k * 5) % 6] if not big else "ok"
+            user = ("user%d" % (k + 1)) if token else ["nuser1", "nuser2"][k % 2]
+            tun = {"user": user, "hostName": ["H1"], "hostPort": ["PA", "PB", "PE"][k % 3], "entry": hosts[k % 3],
+                   "mintXFF": "10.0.0.%d" % (k + 1), "useXFF": "10.0.0.%d" % (k + 1)}
+            tunnels.append({"transport": ["ws", "legacy"][(idx + k) % 2], "tun": tun, "steps": tunnel_steps(k, token, variant)})
+        scripts.append({"id": "m%05d" % len(scripts), "origin": "interleave:%d" % ntun, "cfg": cfg, "tunnels": tunnels, "schedule": schedule})
+    for i, p in enumerate(il2):
+        mk(p, 2, i)
+    for i, p in enumerate(il3):
+        mk(p, 3, i)
+    # many tunnels at once, seeded random schedules
+    for i in range(6 if tier == "quick" else 40):
+        n = [8, 16, 32, 64][i % 4] if tier == "thorough" else [8, 16][i % 2]
+        sched = [t for t in range(n) for _ in range(7)]
+        rng.shuffle(sched)
+        mk(sched, n, i, big=True)
+
+    def owns(v):
+        return True   # in a multi-tunnel run every guard is evaluated with the tunnel's own parameters: any failure is interference
+    out, rep, res = fa.generic("C07", work, tier, seed, "multi", "TunnelTrace", scripts, design,
+                               lambda v: "%s/%s/%s" % (v["guard"], v["a"], v["b"]),
+                               "Gateway.tla: isolation invariants (client/host get only their own tunnel's data, pairing by connection id) model-checked. Conformance: interleavings of the steps of 2 and 3 tunnels enumerated by TLC "
+                               "(Interleave.tla; quick: uniform sample, thorough: more) and seeded random schedules of 8..64 tunnels, mixed transports, distinct users / tokens / hosts / client addresses, some tunnels misbehaving "
+                               "(another tunnel's host, bad cookie, out-of-order) - executed step by step on one real gateway; each tunnel's steps are validated by TLC (TunnelTrace) with that tunnel's own parameters, and after every "
+                               "payload the other tunnels' hosts and clients are checked for leaked bytes", owns=owns, jobs=12)
+    out.coverage["interleavings_2_tunnels"] = {"total": tot2, "run": len(il2)}
+    out.coverage["interleavings_3_tunnels"] = {"total": tot3, "run": len(il3)}
+    out.coverage["tunnel_model_states"] = proto.get("distinct")
+    return out
